@@ -111,7 +111,9 @@ def q_saveload(name, shapes, key, wmax):
         ctx.must("notes_identical_in_order", and_(ok))
         saved_sig = [e for b in bs for e in b.events]
         em, dm = abs_events(raw_abs(loaded[0]))
-        ctx.must("time_signature_in_force", and_([eq(x, y) for x, y in zip(in_force(em, TS, tau, (4, 4)),
+        # the loaded meta sequence itself carries the signature in force (nothing is assumed for it: the 4/4 that holds
+        # where the file specifies nothing is an event of the loaded sequence)
+        ctx.must("time_signature_in_force", and_([eq(x, y) for x, y in zip(in_force(em, TS, tau, (0, 0)),
                                                                                in_force(saved_sig, TS, tau, (4, 4)))]))
         ctx.must("key_signature_in_force", and_([eq(x, y) for x, y in zip(in_force(em, KS, tau, (-1,)),
                                                                               in_force(saved_sig, KS, tau, (-1,)))]))
